@@ -625,7 +625,12 @@ impl Transformer {
             input.check_entities_predefined()?;
             process_events(input, &mut self.context)?
         };
-        self.postprocess(output, writer)
+        // Nothing is written unless the whole transform succeeds: a failure part way
+        // through writing must not leave the start of a document behind.
+        let mut buffer = Vec::new();
+        self.postprocess(output, &mut buffer)?;
+        writer.write_all(&buffer)?;
+        Ok(())
     }
 
     fn write_root_svg(
